@@ -169,6 +169,44 @@ pub fn run(ctx: &RunCtx) -> i32 {
             shared.merge(r);
         });
     }
+    // kind sequences: every sequence over {ordinary, MESSAGE-INTEGRITY, MESSAGE-INTEGRITY-SHA256, FINGERPRINT} up to length 4
+    // (thorough 5), with all-correct and with all-wrong values - protection attributes in every order, repeated, and behind
+    // one another (where validating and not-ignoring configurations meet attributes the ordering rule would have dropped) -
+    // each also truncated by 4 and with its last byte flipped
+    {
+        use crate::refs::codec::{ref_encode_with, LMsg, Mac, L};
+        let raw = seeds::key().ref_bytes();
+        let max_len = if thorough { 5 } else { 4 };
+        for len in 1..=max_len {
+            (0..(1u32 << (2 * len))).into_par_iter().for_each(|n| {
+                let decs = decoders(&key);
+                let mut r = Report::new();
+                let mut x = n;
+                let mut ls = vec![];
+                for i in 0..len {
+                    ls.push(match x & 3 {
+                        0 => L::Priority(i as u32),
+                        1 => L::Mi,
+                        2 => L::Sha,
+                        _ => L::Fp,
+                    });
+                    x >>= 2;
+                }
+                let lm = LMsg { method: 1, class: 2, tid: [9; 12], attrs: ls };
+                for mac in [Mac::Good, Mac::Bad] {
+                    let b = ref_encode_with(&lm, Some(&raw), &vec![mac; len]);
+                    probe_decoders(&b, "kind-sequence", &decs, &mut r);
+                    probe_decoders(&b[..b.len() - 4], "kind-sequence-truncated", &decs, &mut r);
+                    let mut m = b.clone();
+                    let k = m.len() - 1;
+                    m[k] ^= 0x01;
+                    probe_decoders(&m, "kind-sequence-last-byte", &decs, &mut r);
+                }
+                r.sym("kind-sequences");
+                shared.merge(r);
+            });
+        }
+    }
     let mut rep = shared.into_inner();
     // client part (E3): added by e3::c03_client when available
     crate::e3::c03_client::run(ctx, &mut rep);
@@ -180,9 +218,9 @@ pub fn run(ctx: &RunCtx) -> i32 {
         rep,
         Finish {
             level: "fault_enumeration",
-            rule: format!("{} seeds (reference-encoded single / pair messages over the menus x tails, RFC 5769 vectors, unknown-attribute messages); every single fault of the alphabet {{bit flip, byte := 00/FF/7F/80/01/02, truncation to every length, 8 header-length edits, 12 edits of every attribute length and 7 of every nested length, 19 UTF-8 / quoting / normalisation injections at every offset of every string value, delete / duplicate / move of every attribute}} at every position{}; each mutant decoded under 16 option combinations + no context (size relation and independence of trailing bytes checked on success), passed to get_input_text x3, and (when the 20 header bytes or the length changed; the reassembler reads nothing else) to the reassembler under every 1-cut (<=28 bytes: 2-cut) chunking x 3 buffers (20, len-1, len) against the reference splitter; valid header + every 1-byte and {} 2-byte bodies; the offset family (5 integrity / fingerprint tails with valid values behind a filler at every 4-aligned body offset 0..=4200 (thorough 16,400), around multiples of 4096 (1024), every offset 65,300..=65,532, each also truncated by 1 / 4 / 8 bytes, with the last byte flipped and the header length +-4); client part: see coverage.client. Non-trivial = distinct byte strings that at least one configuration decoded successfully and that satisfied the relations (plus distinct chunkings whose per-call results matched the splitter)", n_seeds, if thorough { " and all pairs of byte substitutions on seeds <=64 bytes" } else { "" }, if thorough { "every" } else { "4096" }),
+            rule: format!("{} seeds (reference-encoded single / pair messages over the menus x tails, RFC 5769 vectors, unknown-attribute messages) and every {{ordinary, MI, SHA256, FINGERPRINT}} sequence up to length 4 (thorough 5) with all-correct / all-wrong values (plus truncated by 4 and last byte flipped); every single fault of the alphabet {{bit flip, byte := 00/FF/7F/80/01/02, truncation to every length, 8 header-length edits, 12 edits of every attribute length and 7 of every nested length, 19 UTF-8 / quoting / normalisation injections at every offset of every string value, delete / duplicate / move of every attribute}} at every position{}; each mutant decoded under 16 option combinations + no context (size relation and independence of trailing bytes checked on success), passed to get_input_text x3, and (when the 20 header bytes or the length changed; the reassembler reads nothing else) to the reassembler under every 1-cut (<=28 bytes: 2-cut) chunking x 3 buffers (20, len-1, len) against the reference splitter; valid header + every 1-byte and {} 2-byte bodies; the offset family (5 integrity / fingerprint tails with valid values behind a filler at every 4-aligned body offset 0..=4200 (thorough 16,400), around multiples of 4096 (1024), every offset 65,300..=65,532, each also truncated by 1 / 4 / 8 bytes, with the last byte flipped and the header length +-4); client part: see coverage.client. Non-trivial = distinct byte strings that at least one configuration decoded successfully and that satisfied the relations (plus distinct chunkings whose per-call results matched the splitter)", n_seeds, if thorough { " and all pairs of byte substitutions on seeds <=64 bytes" } else { "" }, if thorough { "every" } else { "4096" }),
             assumptions: vec!["the statement's 'random bytes' are replaced by these deterministic families".into()],
-            required_symbols: vec!["bit-flip", "byte-substitution", "truncation", "header-length", "attribute-length", "nested-length", "string-injection", "attribute-delete", "attribute-duplicate", "attribute-move", "tiny-bodies", "offset-family", "client-deliveries", "client-long-replies", "long-term/retry-after-401-cookie", "short-term/learned-SHA256"],
+            required_symbols: vec!["bit-flip", "byte-substitution", "truncation", "header-length", "attribute-length", "nested-length", "string-injection", "attribute-delete", "attribute-duplicate", "attribute-move", "tiny-bodies", "offset-family", "kind-sequences", "client-deliveries", "client-long-replies", "long-term/retry-after-401-cookie", "short-term/learned-SHA256"],
             min_outcomes: 2,
             exhaustive: true,
             bounds: json!({"seeds": n_seeds, "faults_per_mutant": if thorough {2} else {1}}),
